@@ -264,7 +264,7 @@ theorem mdFieldKids_iff (md : Meta) (field : String) (ks : List Xml) :
   unfold mdFieldKids mdFieldOk mdFieldTrees
   cases alookup (.s field) md with
   | none => simp [eq_comm]
-  | some v => cases v <;> simp [fieldElem, needStr, strOk, strT, eq_comm]
+  | some v => cases v <;> simp [fieldElem, pyStr, pyStrT, okB, eq_comm]
 
 theorem metadataKids_iff (md : Meta) (ks : List Xml) :
     metadataKids md = .ok ks ↔ (mdFieldOk md "Creator" && mdFieldOk md "Created" && mdFieldOk md "LastChange") = true
